@@ -50,10 +50,30 @@ def sync(repo):
         cmd += ["--exclude", "/" + e]
     cmd += [repo.rstrip("/") + "/", WORK + "/"]
     subprocess.run(cmd, check=True)
+    _INJECTED.clear()
     # docs/spec/*.yaml are include_str!'d by the crate; they are part of the copy (docs is not excluded)
 
 
 _STAMPS = "/var/tmp/ilverif/inject_stamps.json"
+_INJECTED = {}   # path -> sha256 of the injected content, for the scratch copy as it is right now
+
+
+def pre_build(kind):
+    """Call right before a cargo invocation on the scratch copy.  cargo decides freshness by mtime only, and the
+    scratch copy's files move BACK in time when rsync restores an un-injected original over a file that carried
+    an injected module in the previous build.  So: remember, per target dir, the exact set of injected files of
+    the last build; if the current set differs in any way, bump src/lib.rs so that the crate is rebuilt."""
+    try:
+        with open(_STAMPS) as f:
+            stamps = json.load(f)
+    except Exception:  # noqa
+        stamps = {}
+    key = "__set_" + kind
+    if stamps.get(key) != _INJECTED:
+        os.utime(os.path.join(WORK, "src/lib.rs"), None)
+        stamps[key] = dict(_INJECTED)
+        with open(_STAMPS, "w") as f:
+            json.dump(stamps, f)
 
 
 def write_stable(path, data):
@@ -69,6 +89,7 @@ def write_stable(path, data):
         stamps = {}
     with open(path, "wb") as f:
         f.write(data)
+    _INJECTED[path] = h
     rec = stamps.get(path)
     if rec and rec[0] == h:
         os.utime(path, (rec[1], rec[1]))
@@ -146,6 +167,7 @@ def cargo_kani(unit, harnesses, timeout_s, jobs, extra=(), log_name=None):
     for h in harnesses:
         cmd += ["--harness", "%s::%s" % (modpath, h)]
     env = dict(os.environ, CARGO_NET_OFFLINE="true")
+    pre_build("kani")
     t0 = time.time()
     # generous global limit: build (<= 15 min cold) + ceil(n/jobs) rounds of timeout
     rounds = (len(harnesses) + jobs - 1) // jobs
@@ -260,6 +282,7 @@ def replay_on_real_code(unit, harness, bytes_, replay_path):
     # --exact needs the full test path; use a filter instead
     cmd = ["cargo", "test", "--offline", "--lib", "--target-dir", TEST_TARGET, "verif_kani_%s::verif_replay" % unit,
            "--", "--nocapture", "--test-threads", "1"]
+    pre_build("test")
     try:
         p = subprocess.run(cmd, cwd=WORK, env=env, capture_output=True, text=True, timeout=3600)
     except subprocess.TimeoutExpired:
